@@ -246,6 +246,19 @@ CO_ERR COCSdoRequestDownload(CO_CSDO *csdo,
  */
 void COCSdoInit(CO_CSDO *csdo, struct CO_NODE_T *node);
 
+/*! rief  RESTART SDO CLIENT
+*
+*    This function finishes all running transfers with an abort and
+*    initializes the SDO clients (e.g. during NMT reset).
+*
+* \param csdo
+*    Reference to SDO client
+*
+* \param node
+*    Reference to parent CANopen node
+*/
+void COCSdoRestart(CO_CSDO *csdo, struct CO_NODE_T *node);
+
 /*! \brief  CHECK FOR RESPONSE TO SDO CLIENT
 *
 *    This function checks the given frame to be a response to SDO
